@@ -625,20 +625,7 @@ def compute_next_steps(
     )
 
     # First, we process the history and apply any alterations e.g. 'hide_prev_turn'
-    actual_history = []
-    for event in history:
-        if event["type"] == "hide_prev_turn":
-            # we look up the last `UtteranceUserActionFinished` event and remove everything after
-            end = len(actual_history) - 1
-            while (
-                end > 0 and actual_history[end]["type"] != "UtteranceUserActionFinished"
-            ):
-                end -= 1
-
-            assert actual_history[end]["type"] == "UtteranceUserActionFinished"
-            actual_history = actual_history[0:end]
-        else:
-            actual_history.append(event)
+    actual_history = _remove_hidden_turns(history)
 
     steps_history = []
     for event in actual_history:
@@ -692,6 +679,33 @@ def compute_next_steps(
     return next_steps
 
 
+def _remove_hidden_turns(history: List[dict]) -> List[dict]:
+    """Return the history without the turns that were hidden with `hide_prev_turn`.
+
+    A hidden turn starts with the last user utterance or, if the turn was not started
+    by a user utterance (e.g., by a custom event), after the last `Listen` event.
+    """
+    actual_history: List[dict] = []
+    for event in history:
+        if event["type"] == "hide_prev_turn":
+            end = len(actual_history) - 1
+            while end >= 0 and actual_history[end]["type"] not in [
+                "UtteranceUserActionFinished",
+                "Listen",
+            ]:
+                end -= 1
+
+            if end >= 0 and actual_history[end]["type"] == "Listen":
+                # The turn was not started by a user utterance, we keep the `Listen`
+                end += 1
+
+            actual_history = actual_history[0 : max(end, 0)]
+        else:
+            actual_history.append(event)
+
+    return actual_history
+
+
 def compute_context(history: List[dict]):
     """Computes the context given a history of events.
 
@@ -710,7 +724,8 @@ def compute_context(history: List[dict]):
         "last_bot_message": None,
     }
 
-    for event in history:
+    # The context must be computed from the same events as the state of the flows
+    for event in _remove_hidden_turns(history):
         if event["type"] == "ContextUpdate":
             context.update(event["data"])
 
